@@ -106,7 +106,7 @@ namespace igris
 
             invalidate();
 
-            m_data = m_alloc.allocate(m_size);
+            m_data = m_alloc.allocate(other.m_size);
             m_size = other.m_size;
             m_capacity = m_size;
             for (auto ip = other.m_data, op = m_data;
